@@ -475,6 +475,28 @@ func (fi *FuncInfo) term0(v ssa.Value) *Term {
 	case *ssa.Range:
 		return mk(KOpaque, "range#"+fi.ID(v), v.Type(), v, fi.Term(v.X))
 	case *ssa.Phi:
+		// a pointer that is either nil or one particular address (p := find(x) with the not-found ways returning nil, after
+		// inlining or in single-exit form): every use that goes through it is a use of that address, a nil value is only
+		// ever compared
+		if _, isPtr := v.Type().Underlying().(*types.Pointer); isPtr {
+			var only ssa.Value
+			unique := true
+			for _, e := range v.Edges {
+				if k, isC := e.(*ssa.Const); isC && k.Value == nil {
+					continue
+				}
+				if only == nil {
+					only = e
+				} else if e != only {
+					unique = false
+				}
+			}
+			if unique && only != nil {
+				if _, again := only.(*ssa.Phi); !again {
+					return fi.Term(only)
+				}
+			}
+		}
 		return mk(KPhi, fi.ID(v), v.Type(), v)
 	case *ssa.MakeSlice:
 		return mk(KMake, "slice#"+fi.ID(v), v.Type(), v, fi.Term(v.Len))
